@@ -46,7 +46,8 @@ where
     {
         let size: usize = infos.size();
 
-        let lvl_0: usize = LWEPlaintext::bytes_of(size);
+        // the plaintext is 8 * size bytes and the next take starts on a 64-byte boundary
+        let lvl_0: usize = LWEPlaintext::bytes_of(size).next_multiple_of(64);
         let lvl_1: usize = self.vec_znx_normalize_tmp_bytes();
 
         lvl_0 + lvl_1
